@@ -1,16 +1,21 @@
 package tsdbsim
 
 import (
+	"context"
 	"fmt"
 	"math"
 	"os"
 	"path/filepath"
 	"sort"
+	"strings"
+
+	"github.com/prometheus/prometheus/model/labels"
 
 	"github.com/prometheus/prometheus/tsdb"
 	"github.com/prometheus/prometheus/tsdb/index"
 
 	"verif/sim/core/simfs"
+	"verif/sim/model/tsdbmodel"
 )
 
 // ---- C24: a damaged chunk record or series index entry is reported, never returned as data ----
@@ -142,4 +147,339 @@ func (e *exec) blockDamageCheck(where string) {
 		}
 		e.res.Count("block_damage_harmless", 1) // e.g. padding between series entries
 	}
+}
+
+// ---- C04: damaged WAL / WBL / checkpoint / head chunk data never yields wrong samples ----
+
+func newestFile(glob string, minSize int64) string {
+	fs, _ := filepath.Glob(glob)
+	sort.Strings(fs)
+	for i := len(fs) - 1; i >= 0; i-- {
+		if fi, err := os.Stat(fs[i]); err == nil && !fi.IsDir() && fi.Size() >= minSize {
+			return fs[i]
+		}
+	}
+	return ""
+}
+
+// usedLen is the length of b without its trailing zero bytes (preallocated / page-padded files).
+func usedLen(b []byte) int {
+	n := len(b)
+	for n > 0 && b[n-1] == 0 {
+		n--
+	}
+	return n
+}
+
+// logDamageCheck is the C04 oracle on a directory image (clean shutdown or process kill): one of the newest WAL
+// segment, WBL segment, checkpoint segment or head chunk file of a copy is truncated at a drawn offset or gets one byte
+// altered. Opening the copy must either fail and leave every other pre-existing file untouched, or succeed with
+//   - nothing that an undamaged open of the same image does not return (no unwritten series, samples or values),
+//   - everything the blocks hold,
+//   - (damage outside WAL and checkpoint) every in-order head sample, because the intact WAL still holds it,
+//
+// and the repaired database must accept a new write and keep it, and its content, across another restart.
+func (e *exec) logDamageCheck(img, where string) {
+	refDir := e.scratch("dmgref")
+	defer os.RemoveAll(refDir)
+	if err := simfs.CopyTree(img, refDir); err != nil {
+		panic("harness: " + err.Error())
+	}
+	ref, _, err := e.open(refDir)
+	if err != nil {
+		e.fail("damage-reference", "undamaged-open-failed", "%s: open of the undamaged image failed: %v", where, err)
+		return
+	}
+	full, qerr := querySamples(ref, math.MinInt64, math.MaxInt64, allMatcher)
+	inBlocks := qresult{}
+	for _, b := range ref.Blocks() {
+		if qerr != nil {
+			break
+		}
+		var r qresult
+		r, qerr = querySamples(blockSource{b}, math.MinInt64, math.MaxInt64, allMatcher)
+		for k, v := range r {
+			inBlocks[k] = append(inBlocks[k], v...)
+		}
+	}
+	ref.Close()
+	if qerr != nil {
+		e.fail("damage-reference", "undamaged-query-failed", "%s: query of the undamaged image failed: %v", where, qerr)
+		return
+	}
+	for round := 0; round < 3 && !e.failed; round++ {
+		dir := e.scratch("dmg")
+		if err := simfs.CopyTree(img, dir); err != nil {
+			panic("harness: " + err.Error())
+		}
+		classes := []string{"wal", "wbl", "chunks_head", "checkpoint"}
+		class := classes[e.rng.Intn(len(classes))]
+		var target string
+		switch class {
+		case "wal":
+			target = newestFile(filepath.Join(dir, "wal", "0*"), 1)
+		case "wbl":
+			target = newestFile(filepath.Join(dir, "wbl", "0*"), 1)
+		case "chunks_head":
+			target = newestFile(filepath.Join(dir, "chunks_head", "0*"), 9)
+		case "checkpoint":
+			target = newestFile(filepath.Join(dir, "wal", "checkpoint.*", "0*"), 1)
+		}
+		if target == "" {
+			os.RemoveAll(dir)
+			continue
+		}
+		b, err := os.ReadFile(target)
+		used := usedLen(b)
+		if err != nil || used < 2 {
+			os.RemoveAll(dir)
+			continue
+		}
+		how := "truncate"
+		pos := e.rng.Intn(used)
+		if e.rng.Chance(0.5) {
+			b = b[:pos]
+		} else {
+			how = "alter"
+			old := b[pos]
+			if e.rng.Chance(0.6) {
+				b[pos] ^= byte(1 << uint(e.rng.Intn(8)))
+			} else {
+				b[pos] = 0
+			}
+			if b[pos] == old {
+				b[pos] ^= 0x10
+			}
+		}
+		if err := os.WriteFile(target, b, 0o666); err != nil {
+			panic("harness: " + err.Error())
+		}
+		rel, _ := filepath.Rel(dir, target)
+		e.res.Count("fault:"+class+"-"+how, 1)
+		desc := fmt.Sprintf("%s: %s of %s at byte %d", where, how, rel, pos)
+		hcClean := class == "chunks_head" && headChunkFilesReadCleanly(filepath.Join(dir, "chunks_head"), e.scratch("hcprobe"))
+		before, _ := simfs.Digest(dir)
+		if debugOn {
+			os.RemoveAll("/dev/shm/verif-keep")
+			simfs.CopyTree(dir, "/dev/shm/verif-keep")
+			fmt.Printf("DBG damaged image kept in /dev/shm/verif-keep (%s)\n", desc)
+		}
+		db, _, oerr := e.open(dir)
+		e.res.Evals++
+		if oerr != nil {
+			after, _ := simfs.Digest(dir)
+			for _, d := range simfs.DiffDigest(before, after) {
+				if (strings.HasPrefix(d, "changed ") || strings.HasPrefix(d, "removed ")) && !strings.Contains(d, rel) {
+					e.fail("damage-open-failed", "failed-open-touched-undamaged-files", "%s: open failed (%v) and %s", desc, oerr, d)
+				}
+			}
+			e.res.Count("damage_open_failed", 1)
+			e.res.LeakedGoroutinesExpected = true // tsdb.Open does not stop the log writers it started when it fails
+			os.RemoveAll(dir)
+			continue
+		}
+		got, gerr := querySamples(db, math.MinInt64, math.MaxInt64, allMatcher)
+		if gerr != nil {
+			db.Close()
+			os.RemoveAll(dir)
+			e.fail("damage-query", "query-error-after-repair", "%s: query after the repairing open failed: %v", desc, gerr)
+			return
+		}
+		// (a) nothing that was not written / that the undamaged image does not hold
+		if d := e.notEverWritten(got); d != "" {
+			db.Close()
+			os.RemoveAll(dir)
+			e.fail("damage-content", "damaged-"+class+"-yields-data-never-written", "%s: %s", desc, d)
+			return
+		}
+		// (b) block data is untouched by log damage
+		if d := e.subsetModuloCandidates(inBlocks, got); d != "" {
+			db.Close()
+			os.RemoveAll(dir)
+			e.fail("damage-content", "damaged-"+class+"-loses-block-data", "%s: %s", desc, d)
+			return
+		}
+		// (c) with WAL and checkpoint intact every in-order head sample is still in the WAL
+		if class == "wbl" || class == "chunks_head" {
+			must := qresult{}
+			for k, v := range full {
+				for _, s := range v {
+					if !e.cellOOO(k, s.T) && e.cellKF(k, s.T) == "" {
+						must[k] = append(must[k], s)
+					}
+				}
+			}
+			if d := e.subsetModuloCandidates(must, got); d != "" {
+				if hcClean && e.cfg.Snapshot {
+					// listed finding (C23): the snapshot is kept when a head chunk file lost chunks but still reads cleanly
+					e.res.Count("tolerated:"+TagSnapshotTrustsHeadChunks, 1)
+				} else if walRefReuse(img) || e.anyMultiRef() {
+					e.res.Count("tolerated:duplicate-series-ref-findings", 1)
+				} else {
+					db.Close()
+					os.RemoveAll(dir)
+					e.fail("damage-content", "damaged-"+class+"-loses-in-order-data-the-wal-holds", "%s: %s", desc, d)
+					return
+				}
+			}
+		}
+		e.res.Count("damage_repaired_opens", 1)
+		// in half of the cases a clean restart lies between the repair and the next write
+		extraRestart := e.rng.Chance(0.5)
+		if extraRestart {
+			if cerr := db.Close(); cerr != nil {
+				os.RemoveAll(dir)
+				e.fail("damage-writable", "close-after-repair-failed", "%s: close after the repairing open failed: %v", desc, cerr)
+				return
+			}
+			db, _, err = e.open(dir)
+			if err != nil {
+				os.RemoveAll(dir)
+				e.fail("damage-writable", "second-open-failed", "%s: second open after repair failed: %v", desc, err)
+				return
+			}
+		}
+		// (d) writable, and stable across another restart
+		probe := labels.FromStrings("__name__", "probe", "x", "1")
+		// an in-order timestamp: above the head and above every block
+		t := int64(0)
+		if db.Head().MinTime() != math.MaxInt64 {
+			t = db.Head().MaxTime() + 1
+		}
+		for _, b := range db.Blocks() {
+			if b.Meta().MaxTime >= t {
+				t = b.Meta().MaxTime + 1
+			}
+		}
+		app := db.Appender(context.Background())
+		_, aerr := app.Append(0, probe, t, 42)
+		if aerr == nil {
+			aerr = app.Commit()
+		} else {
+			_ = app.Rollback()
+		}
+		cerr := db.Close()
+		if aerr != nil || cerr != nil {
+			os.RemoveAll(dir)
+			e.fail("damage-writable", "append-after-repair-failed", "%s: append / close after the repairing open failed: %v / %v", desc, aerr, cerr)
+			return
+		}
+		db2, _, err := e.open(dir)
+		if err != nil {
+			os.RemoveAll(dir)
+			e.fail("damage-writable", "second-open-failed", "%s: second open after repair failed: %v", desc, err)
+			return
+		}
+		got2, _ := querySamples(db2, math.MinInt64, math.MaxInt64, allMatcher)
+		pr, _ := querySamples(db2, math.MinInt64, math.MaxInt64, labels.MustNewMatcher(labels.MatchEqual, "__name__", "probe"))
+		db2.Close()
+		os.RemoveAll(dir)
+		if debugOn {
+			fmt.Printf("DBG probe t=%d after second open: %v (all: %v)\n", t, pr, got2)
+		}
+		kept := false
+		for _, x := range pr[probe.String()] {
+			if x.T == t && x.Kind == tsdbmodel.KFloat && x.F == 42 {
+				kept = true
+			}
+		}
+		if !kept {
+			e.fail("damage-writable", "write-after-repair-lost", "%s: the sample written after the repair is gone after the next restart", desc)
+			return
+		}
+		if n := len(pr[probe.String()]); n != 1 {
+			// the new series inherited samples of another series: its ref was reissued although a log still uses it
+			if (class == "wal" || class == "checkpoint") && !extraRestart {
+				// listed finding: the open that repairs the WAL does not replay the WBL, so WBL records of series whose
+				// series record was cut off neither load nor reserve their ref
+				e.res.Count("tolerated:"+tsdbmodel.TagWBLSkipped, 1)
+				if e.cfg.KF == tsdbmodel.TagWBLSkipped {
+					e.fail("damage-content", "known:"+tsdbmodel.TagWBLSkipped, "%s: the series created after the repair returns %d samples that were written to another series (its ref is still used by out-of-order WAL records)", desc, n-1)
+					return
+				}
+			} else {
+				e.fail("damage-content", "damaged-"+class+"-yields-data-never-written", "%s: the series created after the repair returns %v, of which only %d:42 was written to it", desc, pr[probe.String()], t)
+				return
+			}
+		}
+		delete(got2, probe.String())
+		if d := e.notEverWritten(got2); d != "" {
+			e.fail("damage-content", "damaged-"+class+"-yields-data-never-written", "%s (after the second restart): %s", desc, d)
+			return
+		}
+	}
+}
+
+// notEverWritten returns a description of the first returned sample that no committed append ever wrote ("" if none).
+// A log cut short legitimately shows an earlier state (a sample whose deletion record is lost comes back); it never
+// shows a series, timestamp or value that was not written.
+func (e *exec) notEverWritten(got qresult) string {
+	keys := make([]string, 0, len(got))
+	for k := range got {
+		keys = append(keys, k)
+	}
+	sort.Strings(keys)
+	for _, k := range keys {
+		w := e.ever[k]
+		if w == nil {
+			return fmt.Sprintf("series %s was never written", k)
+		}
+		for _, s := range got[k] {
+			ok := false
+			for _, v := range w[s.T] {
+				if tsdbmodel.ValueEqual(v, s) {
+					ok = true
+					break
+				}
+			}
+			if !ok {
+				return fmt.Sprintf("series %s: %s was never written (written at that timestamp: %v)", k, s, w[s.T])
+			}
+		}
+	}
+	return ""
+}
+
+// anyMultiRef reports whether some series has been known under several refs (duplicate series records: listed findings
+// make head data of such series depend on which files survive).
+func (e *exec) anyMultiRef() bool {
+	for _, ms := range e.m.Series {
+		if ms.MultiRef || ms.GCd || ms.OrphanTainted {
+			return true
+		}
+	}
+	return false
+}
+
+// subsetModuloCandidates returns a description of the first sample of a that b lacks or holds with another value
+// (two writers of one timestamp: either stored value is accepted); "" if a is contained in b.
+func (e *exec) subsetModuloCandidates(a, b qresult) string {
+	keys := make([]string, 0, len(a))
+	for k := range a {
+		keys = append(keys, k)
+	}
+	sort.Strings(keys)
+	cells := map[string]map[int64]*tsdbmodel.Cell{}
+	for _, ms := range e.m.Series {
+		cells[ms.Labels.String()] = ms.Cells
+	}
+	for _, k := range keys {
+		have := map[int64]tsdbmodel.Sample{}
+		for _, s := range b[k] {
+			have[s.T] = s
+		}
+		for _, s := range a[k] {
+			h, ok := have[s.T]
+			if !ok {
+				return fmt.Sprintf("series %s: %s is missing", k, s)
+			}
+			if !tsdbmodel.ValueEqual(h, s) {
+				if c := cells[k][s.T]; c != nil && len(c.Cands) > 1 {
+					continue
+				}
+				return fmt.Sprintf("series %s: %s where %s is expected", k, s, h)
+			}
+		}
+	}
+	return ""
 }
